@@ -134,10 +134,30 @@ def main():
                             vals = [float(cop.conditional_distribution(eps, np.array([x]))[0]) for x in xs]
                             inv = [float(np.ravel(cop.inverse_conditional_distribution(np.array(eps), np.array([v])))[0]) for v in vals]
                             lim = [float(cop.conditional_distribution(eps, np.array([-np.inf]))[0]), float(cop.conditional_distribution(eps, np.array([np.inf]))[0])]
-                            rows.append({"vals": [quantise(v, QU) for v in vals],
+                            xz = [-64.0, -2.0, -0.5, -0.01, 0.0, 0.01, 0.5, 2.0, 64.0]
+                            vz = [float(cop.conditional_distribution(eps, np.array([x]))[0]) for x in xz]
+                            rows.append({"vz": [quantise(v, QU) for v in vz], "vals": [quantise(v, QU) for v in vals],
                                          "back": [quantise(i / x, 1e-6) for i, x in zip(inv, xs)],
                                          "lim": [quantise(v, 1e-4) for v in lim]})
                         ev.append({"e": "CondQ", "rows": rows, "one": quantise(1.0, QU)})
+                    # the stated mixed derivative next to central mixed differences of the copula itself, in every orthant:
+                    # row = [stated, sgn(prod u) * difference quotient, difference quotient * prod u] on the row's own scale
+                    # (moderate theta and magnitudes: for a stiff copula the difference quotient loses its digits to cancellation)
+                    rows = []
+                    for signs in (itertools.product((1.0, -1.0), repeat=d) if theta <= 2.0 else ()):
+                        for _ in range(2):
+                            u = np.array([sg * rng.uniform(0.5, 2.0) for sg in signs])
+                            hs = 1e-3 * np.abs(u)
+                            fdq = 0.0
+                            for st in itertools.product((1.0, -1.0), repeat=d):
+                                fdq += float(np.prod(st)) * float(cop(u + np.array(st) * hs))
+                            fdq /= float(np.prod(2 * hs))
+                            v = float(cop.x_first_derivative(u))
+                            unit = 1e-6 * max(abs(fdq), abs(v), 1e-12)
+                            rows.append([quantise(v, unit), quantise(float(np.sign(np.prod(u))) * fdq, unit),
+                                         quantise(fdq * float(np.prod(u)), unit)])
+                    if rows:
+                        ev.append({"e": "Deriv", "rows": rows})
                 except Exception as ex:
                     ev.append({"e": "Raise", "what": type(ex).__name__ + ": " + str(ex)[:80]})
                 traces.append({"tid": f"q{len(traces)}", "hdr": hdr, "ev": ev})
